@@ -217,3 +217,119 @@ def delete_addressed(ctx):
     ctx.prove("the-block-at-that-location-is-gone", all(np.linalg.norm(g - want_missing) > 1e-6 for g in got))
     others = [c for c in all_centres if np.linalg.norm(c - want_missing) > 1e-6]
     ctx.prove("every-other-block-is-still-there", all(any(np.linalg.norm(g - c) < 1e-9 for g in got) for c in others) and len(others) == len(all_centres) - 1)
+
+
+# ------------------------------------------------------------------------------ every disk sketch: addressing of lofted shapes, core / shell
+SKETCHES = ["OneCoreDisk", "QuarterDisk", "HalfDisk", "FourCoreDisk", "WrappedDisk", "Oval", "QuarterSplineDisk", "HalfSplineDisk", "SplineDisk",
+            "QuarterSplineRing", "HalfSplineRing", "SplineRing"]
+
+
+def _make_sketch(kind, rng=None):
+    u = (lambda a, b: rng.uniform(a, b)) if rng else (lambda a, b: (a + b) / 2)
+    c = np.array([u(-3, 3), u(-3, 3), u(-3, 3)])
+    n = np.array([u(-1, 1), u(-1, 1), u(0.5, 2)])
+    n = n / np.linalg.norm(n)
+    e1 = np.cross(n, [1.0, 0.3, 0.2])
+    e1 = e1 / np.linalg.norm(e1)
+    e2 = np.cross(n, e1)
+    R = u(0.5, 2)
+    from classy_blocks.construct.flat.sketches.disk import QuarterDisk
+
+    if kind in ("OneCoreDisk", "HalfDisk", "FourCoreDisk"):
+        return getattr(cb, kind)(c, c + e1 * R, n), c, n
+    if kind == "QuarterDisk":
+        return QuarterDisk(c, c + e1 * R, n), c, n
+    if kind == "WrappedDisk":
+        return cb.WrappedDisk(c, c + (e1 + e2) * R, 0.5 * R, n), c, n
+    if kind == "Oval":
+        return cb.Oval(c - e1 * R, c + e1 * R, n, 0.6 * R), c, n
+    args = [c, c + e1 * R * u(1.0, 1.5), c + e2 * R, u(0.0, 0.3) * R, u(0.0, 0.2) * R]
+    if kind.endswith("Ring"):
+        args += [0.3 * R, 0.15 * R]
+    return getattr(cb, kind)(*args), c, n
+
+
+def _outer_faces(sketch, centre):
+    """Faces with an edge on the outer boundary, found without the library's core/shell lists: an edge that belongs to
+    one face only and does not lie on a line through the sketch centre (the straight cuts of half and quarter sketches do)."""
+    key = lambda p: tuple(np.round(np.asarray(p, dtype=float), 7))
+    count = {}
+    for f_ in sketch.faces:
+        P = [np.asarray(p.position, dtype=float) for p in f_.points]
+        for a in range(4):
+            e = frozenset((key(P[a]), key(P[(a + 1) % 4])))
+            count[e] = count.get(e, 0) + 1
+    size = max(np.linalg.norm(np.asarray(p.position, dtype=float) - centre) for f_ in sketch.faces for p in f_.points)
+    outer = []
+    for f_ in sketch.faces:
+        P = [np.asarray(p.position, dtype=float) for p in f_.points]
+        touch = False
+        for a in range(4):
+            p, q = P[a], P[(a + 1) % 4]
+            if count[frozenset((key(p), key(q)))] == 1 and np.linalg.norm(np.cross(p - centre, q - centre)) > 1e-6 * size * size:
+                touch = True
+        outer.append(touch)
+    return outer
+
+
+@proof("C19", "disk-sketches/lofted-grid-and-core-shell", cases=SKETCHES, level="S", samples=6,
+       functions=["classy_blocks.construct.shape:LoftedShape.__init__", "classy_blocks.construct.shape:LoftedShape.grid", "classy_blocks.construct.flat.sketches.disk:DiskBase.core",
+                  "classy_blocks.construct.flat.sketches.disk:DiskBase.shell", "classy_blocks.construct.flat.sketches.spline_round:QuarterSplineDisk.grid",
+                  "classy_blocks.construct.flat.sketches.disk:Oval.__init__", "classy_blocks.construct.shapes.round:RoundSolidShape.core"],
+       note="shape-bounded: every disk / spline-round sketch class, one placement in the proof run and random placements in the bounded tier; "
+            "the outer boundary is found from the sketch's own edges (an edge of one face only, not on a line through the centre)")
+def disk_sketch_addressing(ctx):
+    kind = ctx.case
+    sketch, centre, normal = _make_sketch(kind, None if ctx.symbolic else ctx.rng)
+    if kind == "Oval":
+        centre = np.mean([np.asarray(p.position, dtype=float) for f_ in sketch.faces for p in f_.points], axis=0)
+    height = normal * 0.8
+    shape = cb.ExtrudedShape(sketch, height)
+    # 1. grid[r][j] of the shape stands on grid[r][j] of the sketch, all the way up
+    ctx.prove("shape-grid-has-the-sketchs-layout", [len(r) for r in shape.grid] == [len(r) for r in sketch.grid])
+    flat = [f_ for row in sketch.grid for f_ in row]
+    ctx.prove("sketch-grid-lists-every-face-once", sorted(id(f_) for f_ in flat) == sorted(id(f_) for f_ in sketch.faces))
+    for r, row in enumerate(shape.grid):
+        for j, op in enumerate(row):
+            base = np.asarray(sketch.grid[r][j].point_array, dtype=float)
+            ctx.prove("operation-at-grid[r][j]-stands-on-sketch-face-grid[r][j]", bool(np.allclose(np.asarray(op.bottom_face.point_array, dtype=float), base, atol=1e-9)), r=r, j=j)
+            ctx.prove("and-ends-above-that-face", bool(np.allclose(np.asarray(op.top_face.point_array, dtype=float), base + height, atol=1e-9)), r=r, j=j)
+    ctx.prove("operations-listed-in-grid-order", [id(o) for o in shape.operations] == [id(o) for row in shape.grid for o in row])
+    # 2. core / shell = away from / on the outer boundary
+    outer = _outer_faces(sketch, centre)
+    shell = sketch.shell
+    core = sketch.core or []
+    in_list = lambda f_, lst: any(f_ is x for x in lst)
+    if kind != "WrappedDisk":   # a wrapped disk has a middle ring of faces between its core and its shell
+        ctx.prove("core-and-shell-partition-the-faces", len(core) + len(shell) == len(sketch.faces) and all(in_list(f_, core) != in_list(f_, shell) for f_ in sketch.faces))
+    ctx.prove("core-faces-are-not-on-the-outer-boundary", all(not o for f_, o in zip(sketch.faces, outer) if in_list(f_, core)))
+    ctx.prove("shell-faces-are-exactly-those-on-the-outer-boundary", all(in_list(f_, shell) == o for f_, o in zip(sketch.faces, outer)),
+              outer=outer, shell=[in_list(f_, shell) for f_ in sketch.faces])
+    if kind.endswith("Ring"):
+        ctx.prove("a-ring-has-no-core", len(core) == 0)
+
+
+@proof("C19", "TransformedStack/default-scaling-origin-keeps-cells-together", cases=[(2, 2, 2), (3, 2, 3), (1, 3, 2)], level="S", samples=3, timeout=120,
+       functions=["classy_blocks.base.element:ElementBase.transform", ST + "TransformedStack.__init__"],
+       note="a tapered stack (translation, then scaling about the default origin) on a grid with symbolic placement: the cell addressed as "
+            "grid[k][j][i] shares its corners with its column, row and tier neighbours")
+def tapered_stack_conformal(ctx):
+    n, m, k = ctx.case
+    g, p1, w, h = grid_sketch(ctx, n, m)
+    d = ctx.vec("d")
+    r = ctx.real("r", lo=0.5, hi=1.5)
+    stack = cb.TransformedStack(g, [tr.Translation(d), tr.Scaling(r)], k)
+    grid = stack.grid
+    for t in range(k):
+        for j in range(m):
+            for i in range(n):
+                P = grid[t][j][i].point_array
+                if i + 1 < n:
+                    Q = grid[t][j][i + 1].point_array
+                    ctx.prove("shares-a-face-with-the-next-column", And([ctx.eq(P[a], Q[b], tol=1e-9) for a, b in ((1, 0), (2, 3), (5, 4), (6, 7))]), t=t, j=j, i=i)
+                if j + 1 < m:
+                    Q = grid[t][j + 1][i].point_array
+                    ctx.prove("shares-a-face-with-the-next-row", And([ctx.eq(P[a], Q[b], tol=1e-9) for a, b in ((3, 0), (2, 1), (7, 4), (6, 5))]), t=t, j=j, i=i)
+                if t + 1 < k:
+                    Q = grid[t + 1][j][i].point_array
+                    ctx.prove("shares-a-face-with-the-next-tier", And([ctx.eq(P[a + 4], Q[a], tol=1e-9) for a in range(4)]), t=t, j=j, i=i)
